@@ -412,7 +412,7 @@ def run_ast(ctx):
 
 
 # ---------------------------------------------------------------------------- real extended numbering, every run
-def gen_big(rng, which):
+def gen_big(rng, which, directed=False):
     """A description with a REAL large table, run-length encoded (long runs of one filler entry, tiny bodies).
     which='sec': ≥ 0xff00 sections (e_shnum = 0 / sh_size[0], and from 0xff02 on the name table index by SHN_XINDEX /
     sh_link[0]) or the largest table that needs no escape; which='seg': ≥ 0xffff segments (PN_XNUM / sh_info[0]) or the
@@ -428,6 +428,8 @@ def gen_big(rng, which):
         return rnd_uint(rng, 32)
     if which == 'sec':
         nsec, nseg = rng.choice([0xff00, 0xff00, 0xff02, 0xff02, 0xfeff, 0xff05, 0x10001]), rng.choice([3, 4])
+        if directed:         # the first image of every run: a link into the reserved index range (see `last` below)
+            nsec = rng.choice([0xff02, 0xff05])
     else:
         nsec, nseg = rng.choice([4, 5]), rng.choice([0xffff, 0xffff, 0xfffe, 0x10000, 0x10001])
         if which == 'core':
@@ -467,8 +469,18 @@ def gen_big(rng, which):
     filler = sec(b'.b', type=rng.choice([1, 1, 8, 7, 0x12345678]), flags=X() & ~0x800, addr=X(), offset=X(), size=0, link=W(), info=W(),
                  addralign=X(), entsize=X())
     strtab = sec(b'.shstrtab', type=3, offset=taboff, size=len(tab), body=tab)
-    last = sec(b'.last', type=rng.choice([1, 14, 0x70000005]), flags=X() & ~0x800, addr=X(), offset=X(), link=W(), info=W(),
-               addralign=X(), entsize=X())
+    # the last section: in every second image a symbol table whose sh_link designates the name table — at nsec >= 0xff02 an
+    # index inside SHN_LORESERVE..SHN_HIRESERVE, which under extended numbering is an ordinary section index (a seeded
+    # "reserved indices reference no section" check in the link validation was missed while no link pointed that high)
+    ltype = rng.choice([1, 14, 0x70000005, 2, 11, 2])
+    if directed:
+        ltype = rng.choice([2, 11])
+    if ltype in (2, 11):
+        last = sec(b'.last', type=ltype, flags=X() & ~0x800, addr=X(), offset=X(), link=strtab_idx, info=W(),
+                   addralign=X(), entsize=16 if cls == 32 else 24)
+    else:
+        last = sec(b'.last', type=ltype, flags=X() & ~0x800, addr=X(), offset=X(), link=W(), info=W(),
+                   addralign=X(), entsize=X())
     sections = [sec0, {'rep': nsec - 3, 'sec': filler}, strtab, last]
 
     def seg(t):
@@ -490,7 +502,7 @@ def gen_big(rng, which):
     # indexed access (and the model, whose List-based reads cost O(offset) each) at a few indices only
     sec_idx = sorted({0, 0xfeff, 0xff00, strtab_idx, nsec - 1} & set(range(nsec)))
     seg_idx = sorted({0, 0xfffe, 0xffff, nseg - 1} & set(range(nseg)))
-    return ast, sec_idx, seg_idx, {'nsec': nsec, 'nseg': nseg, 'cls': cls}
+    return ast, sec_idx, seg_idx, {'nsec': nsec, 'nseg': nseg, 'cls': cls, 'linked_last': strtab_idx if ltype in (2, 11) else None}
 
 
 def gen_big_core(rng, cls, le, nseg):
@@ -594,7 +606,7 @@ def _big_fails(r, impl):
 def run_big(ctx):
     rng = ctx.rng('big')
     for k in range(ctx.budget(3, 9)):
-        ast, sec_idx, seg_idx, meta = gen_big(rng, ('sec', 'seg', 'core')[k % 3])
+        ast, sec_idx, seg_idx, meta = gen_big(rng, ('sec', 'seg', 'core')[k % 3], directed=(k == 0))
         case = {'ast': ast, 'secIdx': sec_idx, 'segIdx': seg_idx}
         r, impl = check_big(ctx, case)
         if impl is None:
@@ -602,6 +614,8 @@ def run_big(ctx):
             continue
         ctx.out.count('big:nsec=%#x,nseg=%#x,elf%d%s' % (meta['nsec'], meta['nseg'], meta['cls'], ',kernel-core-shape' if meta.get('core') else ''))
         ctx.out.count('big:domain=wfZ')
+        if meta.get('linked_last'):
+            ctx.out.count('big:last-section-is-symtab-linked-to-index-%s' % ('>=0xff00' if meta['linked_last'] >= 0xff00 else '<0xff00'))
         ctx.out.case({'big': [meta['nsec'], meta['nseg'], meta['cls'], ast['le'], ast['shoff'], ast['phoff']]})
         kind = _big_fails(r, impl)
         if kind == 'property':
